@@ -291,6 +291,10 @@ pub struct OracleCfg {
     /// handshake accounting against the reference model (which replies match)
     #[serde(default = "yes")]
     pub lifecycle: bool,
+    /// C10: all peers that are alive at the end must have used identical inputs and statuses for
+    /// the players of a stopped node on every frame, and identical states
+    #[serde(default)]
+    pub survivor_agreement: bool,
     /// two healthy sessions that merely poll must never see NetworkInterrupted
     #[serde(default)]
     pub no_interrupted_events: bool,
@@ -316,6 +320,7 @@ impl Default for OracleCfg {
             buffers: true,
             spectator_stream: true,
             lifecycle: true,
+            survivor_agreement: false,
             no_interrupted_events: false,
             lifecycle_timing: false,
         }
